@@ -544,6 +544,14 @@ def check_buckets(res, facts):
                 return norm(DF.lift_captures(facts, h, DF.expr(h, o, depth=40)))
             sizes = [lifted(h, t["args"][1]) for h in hosts for _, t in h.calls() if t["f"].get("name") == "from_elem" and len(t["args"]) == 2]
             widths = [lifted(h, t["args"][1]) for h in hosts for _, t in h.calls() if t["f"].get("name") in ("make_digits", "step_by") and len(t["args"]) >= 2]
+            # a table allocated / a scalar cut in a same-crate helper (`new_buckets(c)`), in the caller's terms
+            for h in hosts:
+                for _, ct, callee in DF.local_callees(facts, h, exclude=("make_digits",)):
+                    amap = {j + 1: lifted(h, a) for j, a in enumerate(ct["args"])}
+                    for _, t in callee.calls():
+                        n_ = t["f"].get("name")
+                        if n_ == "from_elem" and len(t["args"]) == 2 and "alloc::vec::Vec<V" in callee.local_ty(0).replace(" ", ""):
+                            sizes.append(DF.subst_args(norm(DF.expr(callee, t["args"][1], depth=40)), amap))
             widths = list(dict.fromkeys(widths))
             if len(sizes) != 1 or len(widths) != 1:
                 rule.undecided(key, "expected one bucket table and one window width, found sizes %s, widths %s" % ([show(x)[:50] for x in sizes], [show(x)[:50] for x in widths]), fn.loc)
